@@ -38,26 +38,27 @@ MC_RBT = [_mc("MCRBT", "MCRBT", "red-black model, 7 keys: RBInv, Sorted, NavOK (
 MC_AVL = [_mc("MCAVL", "MCAVL", "AVL model, 7 keys: AVLInv, Sorted, NavOK, MinMaxOK, ShapeInv; Refines AbsMap, WorkBound", cfg_thorough="MCAVL_thorough.cfg"),
           _mc("MCAVL", "MCAVL_vals", "AVL model, 5 keys x 2 values")]
 MC_BT = [_mc("MCBT", "MCBT3", "B-tree model order 3, 8 keys: BTInv, Sorted, GetOK, MinMaxOK, ShapeInv; Refines AbsMap, WorkBound", cfg_thorough="MCBT3_thorough.cfg"),
-         _mc("MCBT", "MCBT4", "B-tree model order 4, 8 keys"), _mc("MCBT", "MCBT5", "B-tree model order 5, 8 keys"),
-         _mc("MCBT", "MCBT6", "B-tree model order 6, 8 keys"), _mc("MCBT", "MCBT3_vals", "B-tree model order 3, 5 keys x 2 values")]
-MC_LH = [_mc("MCLinkedHash", "MCLinkedHash", "linked hash map/set model, 4 keys x 2 values: InStep (table and order list agree); Refines insertion-ordered AbsMap / AbsSet")]
-MC_BIDI = [_mc("MCBidiMap", "MCBidiMap", "bidi map model 3 x 3: MutualInverse, SizesAgree; Refines AbsMap!BidiPutAllowed")]
+         _mc("MCBT", "MCBT4", "B-tree model order 4, 8 keys", cfg_thorough="MCBT4_thorough.cfg"), _mc("MCBT", "MCBT5", "B-tree model order 5, 8 keys", cfg_thorough="MCBT5_thorough.cfg"),
+         _mc("MCBT", "MCBT6", "B-tree model order 6, 8 keys", cfg_thorough="MCBT6_thorough.cfg"), _mc("MCBT", "MCBT3_vals", "B-tree model order 3, 5 keys x 2 values")]
+MC_LH = [_mc("MCLinkedHash", "MCLinkedHash", "linked hash map/set model, 4 keys x 2 values: InStep (table and order list agree); Refines insertion-ordered AbsMap / AbsSet", cfg_thorough="MCLinkedHash_thorough.cfg")]
+MC_BIDI = [_mc("MCBidiMap", "MCBidiMap", "bidi map model 3 x 3: MutualInverse, SizesAgree; Refines AbsMap!BidiPutAllowed", cfg_thorough="MCBidiMap_thorough.cfg")]
 MC_HIST = [_mc("MCMapHist", "MCMapHist_" + k, "abstract map (%s) against the history reading of C01: GetIsHistory, SizeIsLive, EachOnce, RemoveAbsent" % k)
            for k in ("hash", "sorted", "half", "linked")]
 MC_SEQ = [_mc("MCDLL", "MCDLL", "doubly linked list cell model, length <= 4: NoPanic, WF (size, backward chain), GetAgrees; Refines AbsSeq", cfg_thorough="MCDLL_thorough.cfg"),
-          _mc("MCArrayList", "MCArrayList", "array list (elements, cap) model, length <= 5: CapInv; Refines AbsSeq"),
-          _mc("MCSLL", "MCSLL", "singly linked list cell model, length <= 4: NoPanic, WF (size, last); Refines AbsSeq")]
-MC_RING = [_mc("MCRing", "MCRing%d" % c, "ring model capacity %d: IndexInv, FullIffSizeCap, SizeAgrees; Refines bounded FIFO" % c) for c in (1, 2, 3, 4)]
+          _mc("MCArrayList", "MCArrayList", "array list (elements, cap) model, length <= 5: CapInv; Refines AbsSeq", cfg_thorough="MCArrayList_thorough.cfg"),
+          _mc("MCSLL", "MCSLL", "singly linked list cell model, length <= 4: NoPanic, WF (size, last); Refines AbsSeq", cfg_thorough="MCSLL_thorough.cfg")]
+MC_RING = [_mc("MCRing", "MCRing%d" % c, "ring model capacity %d: IndexInv, FullIffSizeCap, SizeAgrees; Refines bounded FIFO, IdxRefines RingIdx" % c) for c in (1, 2, 3, 4)] + \
+          [_mc("MCRing", "MCRing6", "ring model capacity 6 (32 623 states)", thorough_only=True)]
 MC_SQ = [_mc("MCStackQueue", "MCStackQueue_" + k, "%s as a delegation layer over the abstract list: Refines LIFO/FIFO" % k)
          for k in ("arraystack", "linkedliststack", "arrayqueue", "linkedlistqueue")]
 MC_HEAP = [_mc("MCHeap", "MCHeap_" + c, "heap array model, 6 items, comparator %s: HeapOrdered; Refines AbsHeap (Pop is a minimum, bag exact)" % c)
            for c in ("prio", "maxprio", "prioid")]
-MC_ITER = [_mc("RBTIter", "MCRBTIter", "red-black iterator over all 6-key trees: CursorInv (refines AbsCursor incl. NextTo/PrevTo)"),
-           _mc("BTIter", "MCBTIter3", "B-tree iterator, order 3, 7 keys: CursorInv"), _mc("BTIter", "MCBTIter4", "B-tree iterator, order 4, 7 keys: CursorInv"),
-           _mc("IdxIter", "MCIdxIter", "index iterator over all sequences of length <= 4: CursorInv with NextTo/PrevTo"),
-           _mc("DLLIter", "MCDLLIter", "doubly linked list iterator (index + element pointer, re-anchoring on first/last) over all cell-level lists of length <= 3: CursorInv, NoIterPanic"),
+MC_ITER = [_mc("RBTIter", "MCRBTIter", "red-black iterator over all 6-key trees: CursorInv (refines AbsCursor incl. NextTo/PrevTo)", cfg_thorough="MCRBTIter_thorough.cfg"),
+           _mc("BTIter", "MCBTIter3", "B-tree iterator, order 3, 7 keys: CursorInv", cfg_thorough="MCBTIter3_thorough.cfg"), _mc("BTIter", "MCBTIter4", "B-tree iterator, order 4, 7 keys: CursorInv"),
+           _mc("IdxIter", "MCIdxIter", "index iterator over all sequences of length <= 4: CursorInv with NextTo/PrevTo", cfg_thorough="MCIdxIter_thorough.cfg"),
+           _mc("DLLIter", "MCDLLIter", "doubly linked list iterator (index + element pointer, re-anchoring on first/last) over all cell-level lists of length <= 3: CursorInv, NoIterPanic", cfg_thorough="MCDLLIter_thorough.cfg"),
            _mc("TreeSetIter", "MCTreeSetIter", "TreeSet iterator (index alongside the red-black iterator), 5 keys: InStep"),
-           _mc("AVLIter", "MCAVLIter", "AVL iterator (Node.Next/Prev = walk1) over all 6-key trees: CursorInv")]
+           _mc("AVLIter", "MCAVLIter", "AVL iterator (Node.Next/Prev = walk1) over all 6-key trees: CursorInv", cfg_thorough="MCAVLIter_thorough.cfg")]
 MC_JSON = [_mc("MCJSON", "MCJSON_" + d, "abstract loads, discipline %s: Sound, NoSurvivor, RoundTrip" % d)
            for d in ("seq", "ring", "stack", "heap", "unordered", "linkedset", "sortedset", "unorderedmap", "sortedmap", "linkedmap", "unorderedbidi", "sortedbidi")]
 MC_ALG = [_mc("MCAlg", "MCAlg", "set algebra loops for all 256 pairs of subsets of a 4-element universe + aliased operands: Exact, OperandsUnchanged")]
